@@ -158,10 +158,10 @@ Definition prop_C05 (i o : val) : bool :=
   | _ => false
   end.
 
-(* known-finding classes, decided by the model alone:
-   1 = WrrSimple on an empty backend list (index panic)
-   2 = WrrSimple never returns (reset-and-rescan livelock, lock held)
-   3 = WlcSimple divides by zero (candidates vanish between the two passes; needs mid-call flips) *)
+(* classes of non-returning calls, decided by the model alone; all three were defects of the code before /repo commit
+   "fix: BalanceRR simpleBalance never spins or panics ..." and cannot occur any more (no finding is listed, so a
+   non-zero class with a failing prop is reported as a violation):
+   1 = WrrSimple panics   2 = WrrSimple does not return   3 = WlcSimple panics *)
 Fixpoint first_bad (l : list (val * option (Z * res))) : Z :=
   match l with
   | [] => 0
